@@ -9,6 +9,7 @@ import (
 	"os"
 	"path/filepath"
 	"strings"
+	"sync"
 	"time"
 )
 
@@ -129,6 +130,8 @@ func init() {
 			switch {
 			case st[0] == 'w':
 				os.WriteFile(pth(st[1]), ce.pair(num(st[2:]))[idx(st[1])], 0o600)
+			case st[0] == 'd':
+				os.Remove(pth(st[1]))
 			case st[0] == 't':
 				os.Truncate(pth(st[1]), 0)
 			case st[0] == 'g':
@@ -162,6 +165,69 @@ func init() {
 			out = append(out, settle(env))
 		}
 		return strings.Join(out, ",")
+	})
+
+	// certrace n=<updates>: handshakes run CONCURRENTLY with in-place updates; every handshake must succeed (a torn
+	// certificate/key mixture fails the signature check) and present a pair that was on disk
+	registerOp("certrace", func(a []string) string {
+		n := 6
+		for _, t := range a {
+			if strings.HasPrefix(t, "n=") {
+				fmt.Sscanf(t[2:], "%d", &n)
+			}
+		}
+		ce := &certEnv{pairs: map[int][2][]byte{}}
+		e2eHookCertLayout = func(dir string) (string, string) {
+			ce.dir = dir
+			p0 := ce.pair(0)
+			ce.certPath, ce.keyPath = filepath.Join(dir, "tls.crt"), filepath.Join(dir, "tls.key")
+			os.WriteFile(ce.certPath, p0[0], 0o600)
+			os.WriteFile(ce.keyPath, p0[1], 0o600)
+			return ce.certPath, ce.keyPath
+		}
+		env := newE2EEnv(defaultE2EOpts())
+		e2eHookCertLayout = nil
+		defer env.close()
+		time.Sleep(30 * time.Millisecond)
+		for k := 1; k <= n; k++ {
+			ce.pair(k) // key generation up front
+		}
+		stop := make(chan struct{})
+		var mu sync.Mutex
+		fails, total := 0, 0
+		var wg sync.WaitGroup
+		for g := 0; g < 8; g++ {
+			wg.Add(1)
+			go func() {
+				defer wg.Done()
+				for {
+					select {
+					case <-stop:
+						return
+					default:
+					}
+					r := presented(env)
+					mu.Lock()
+					total++
+					if r == "x" {
+						fails++
+					}
+					mu.Unlock()
+				}
+			}()
+		}
+		for k := 1; k <= n; k++ {
+			os.WriteFile(ce.certPath, ce.pair(k)[0], 0o600)
+			os.WriteFile(ce.keyPath, ce.pair(k)[1], 0o600)
+			time.Sleep(60 * time.Millisecond)
+		}
+		close(stop)
+		wg.Wait()
+		last := settle(env)
+		if fails > 0 {
+			return fmt.Sprintf("torn-or-failed-handshakes=%d/%d last=%s", fails, total, last)
+		}
+		return "ok last=" + last
 	})
 
 	register("cert", "C14: file-operation histories on the watched certificate paths against the real CertWatcher", func(c *ctx) {
@@ -206,9 +272,18 @@ func init() {
 					}
 				}
 			}
+			if style != "symlink" && r.chance(1, 3) {
+				// the history ends with one or both files MISSING: the last good pair must still be presented
+				steps = append(steps, []string{"dc", "dk", "dc,dk", "dk,dc"}[r.intn(4)])
+				c.tag("ends-with-missing-file")
+			}
 			c.tag("style:" + style)
 			c.op(fmt.Sprintf("cert style=%s steps=%s", style, strings.Join(steps, ",")))  // oracle: the property
 			c.op(fmt.Sprintf("certm style=%s steps=%s", style, strings.Join(steps, ","))) // correspondence: code + inotify contract
+		}
+		for i := 0; i < 1+c.count/10; i++ {
+			c.tag("concurrent-handshakes")
+			c.op(fmt.Sprintf("certrace n=%d", 5+i%4))
 		}
 		// the documented finding D17: swap of the symlinked directory WITHOUT deleting the old one
 		c.op("cert style=symlink steps=S1,s2")
